@@ -627,6 +627,28 @@ func runPSPEntry(x *run, a map[string]string, thorough bool) {
 			unc = fmt.Sprintf("uncovered byte %d bit %d", fl[0], fl[1])
 		}
 	}
+	// … nor has what the unsigned bytes of the entry hold as a whole (the gap between the signed data
+	// and the signature, the bytes behind the signature): zeros, FF, noise
+	for _, fill := range []string{"00", "ff", "rand"} {
+		m := clone(img)
+		n := 0
+		for i := off; i < off+ln && i < uint64(len(m)); i++ {
+			if !covered(i) {
+				n++
+				switch fill {
+				case "00":
+					m[i] = 0
+				case "ff":
+					m[i] = 0xff
+				default:
+					m[i] = byte(r.Intn(256))
+				}
+			}
+		}
+		if n > 0 && unc == "" && callPSPEntry(m, ks, off, ln) != "ok" {
+			unc = fmt.Sprintf("the %d unsigned bytes of the entry filled with %s", n, fill)
+		}
+	}
 	for i, e := range es {
 		if bad != "" || !bytes.Equal(e.raw[4:20], img[off+56:off+72]) {
 			continue
